@@ -227,6 +227,9 @@ impl TreeSys for Fam {
     fn max_len(&self) -> usize {
         self.max_len
     }
+    fn name(&self) -> String {
+        "kernels".into()
+    }
     fn visit(&self, w: &[u8], _p: Option<&()>, ctx: &mut Ctx) {
         check_word(w, &self.alpha, ctx)
     }
